@@ -20,6 +20,9 @@ CONSTANTS
  CowIndex = TRUE
  InvAfterDel = TRUE
  NormKey = TRUE
+ TrustApplied = FALSE
+ PlainIds = {}
+ FeatFromPut = FALSE
  LockStyle = "global"
 INIT MInit
 NEXT MNext
